@@ -10,7 +10,7 @@
 #include "net_http_curl_async.c"
 
 static int run(size_t first, size_t second, unsigned long fail_at) {
-	static char data[600]; CurlAsyncRequest cr; HttpAsyncCtx cl; size_t r1, r2 = 0, i; int bad = 0;
+	static char data[1024]; CurlAsyncRequest cr; HttpAsyncCtx cl; size_t r1, r2 = 0, i; int bad = 0;
 	for (i = 0; i < sizeof(data); i++) data[i] = (char)(i * 7 + 1);
 	memset(&cr, 0, sizeof(cr)); memset(&cl, 0, sizeof(cl)); cr.client = &cl; cr.ref = 1;
 	ra_reset(); ra_begin(fail_at);
